@@ -22,27 +22,27 @@ import (
 
 // Notation names.
 const (
-	NPlain       = "unsigned-plain"    // 123
-	NU           = "unsigned-0u"       // 0u123
-	ND           = "unsigned-0d"       // 0d123
-	NUDot        = "unsigned-0u-dot"   // 0u123.000
-	NDDot        = "unsigned-0d-dot"   // 0d123.000
-	NUSized      = "unsigned-0u-sized" // 0u<8>123
-	NDSized      = "unsigned-0d-sized" // 0d<8>123
-	NS           = "signed-0s"         // 0s-5
-	NSD          = "signed-0sd"        // 0sd-5
-	NBin         = "bin"               // 0b101
-	NBinSized    = "bin-sized"         // 0b<8>101
-	NHex         = "hex"               // 0xab
-	NHexSized    = "hex-sized"         // 0x<16>ab
-	NF16         = "float16"           // 0f<16>1.5
-	NF32Sized    = "float32-sized"     // 0f<32>1.5
-	NF32         = "float32"           // 0f1.5
-	NFixedPoint  = "fixedpoint"        // 0fp<s.f>1.5
-	NFloPoCo     = "flopoco"           // 0flp<e.f>1.5
-	NLQ          = "lq"                // 0lq<s.t>1.5
-	NFXP         = "fxp"               // 0fxp<s.f>1.5
-	NNone        = "none"              // no notation claims the string
+	NPlain      = "unsigned-plain"    // 123
+	NU          = "unsigned-0u"       // 0u123
+	ND          = "unsigned-0d"       // 0d123
+	NUDot       = "unsigned-0u-dot"   // 0u123.000
+	NDDot       = "unsigned-0d-dot"   // 0d123.000
+	NUSized     = "unsigned-0u-sized" // 0u<8>123
+	NDSized     = "unsigned-0d-sized" // 0d<8>123
+	NS          = "signed-0s"         // 0s-5
+	NSD         = "signed-0sd"        // 0sd-5
+	NBin        = "bin"               // 0b101
+	NBinSized   = "bin-sized"         // 0b<8>101
+	NHex        = "hex"               // 0xab
+	NHexSized   = "hex-sized"         // 0x<16>ab
+	NF16        = "float16"           // 0f<16>1.5
+	NF32Sized   = "float32-sized"     // 0f<32>1.5
+	NF32        = "float32"           // 0f1.5
+	NFixedPoint = "fixedpoint"        // 0fp<s.f>1.5
+	NFloPoCo    = "flopoco"           // 0flp<e.f>1.5
+	NLQ         = "lq"                // 0lq<s.t>1.5
+	NFXP        = "fxp"               // 0fxp<s.f>1.5
+	NNone       = "none"              // no notation claims the string
 )
 
 // Family maps a notation to the label of the type family it belongs to.
@@ -299,6 +299,9 @@ func unsignedSized(n, size, digits string) Meaning {
 }
 
 func binary(n string, bits int, digits string) Meaning {
+	if bits > 1<<24 {
+		return Meaning{Notation: n, Accept: true, TypeName: "bin", Bits: bits, Unspecified: true}
+	}
 	nb := (bits + 7) / 8
 	out := make([]byte, nb)
 	for i := 0; i < len(digits); i++ {
@@ -326,6 +329,9 @@ func hexa(n string, bits int, digits string) Meaning {
 		bits = need * 8
 	} else if need*8 > bits {
 		return reject(n, "more digits than the stated size")
+	}
+	if bits > 1<<24 {
+		return Meaning{Notation: n, Accept: true, TypeName: "hex", Bits: bits, Unspecified: true}
 	}
 	nb := bits / 8
 	out := make([]byte, nb)
@@ -489,7 +495,7 @@ func F32ToF16(f float32) uint16 {
 		return sign
 	}
 	_, e := math.Frexp(x) // x = m * 2^e, 0.5 <= m < 1
-	e--                  // x = m' * 2^e, 1 <= m' < 2
+	e--                   // x = m' * 2^e, 1 <= m' < 2
 	if e < -14 {
 		e = -14
 	}
